@@ -3,7 +3,7 @@ runtime model running the same script on the same (merged) input."""
 import json, os, re, shutil
 from vlib import core, gen, levelb
 
-ENV = {"VERIF_A": "alpha", "VERIF_N": "42"}
+ENV = {"VERIF_A": "alpha", "VERIF_N": "42", "VERIF_E": "", "VERIF_NEG": "-7"}   # VERIF_E: set, but empty
 
 
 def ctor_name(cfg):
@@ -85,9 +85,9 @@ def compare_script(impl, model):
     diffs = []
     ta, tb = {}, {}
     for i, (a, b) in enumerate(zip(impl, model)):
-        if ("err" in a) != ("err" in b) or "panic" in a or "badop" in b:
+        if ("err" in a) != ("err" in b) or ("panic" in a) != ("panic" in b) or ("nomethod" in a) != ("nomethod" in b) or "badop" in b:
             diffs.append((i, a, b)); continue
-        if "err" in a:
+        if "err" in a or "panic" in a or "nomethod" in a:
             continue
         ca = levelb.canon_serials(a.get("ok"), ta)
         cb = levelb.canon_serials(b.get("ok"), tb)
